@@ -598,3 +598,108 @@ Proof.
     + inversion H; subst d ek Pf; clear H. split; [eapply inv_final; eauto|]. intros Hc. discriminate.
     + refine (IH (mkst (sP st2) (sPin st2) (sS st2) (sS st2)) _ _ _ _ d ek Pf _ _ _ _ H); cbn [sP sPin sS sD]; auto.
 Qed.
+
+(* ====================================================================== F. fnnls: KKT at exit *)
+Definition gradR (A : list (list R)) (b d : list R) (i : nat) : R := dotR (rowR A i) d - nth i b 0.
+Lemma grad_gradR A b d i : @grad ROps A b d i = gradR A b d i.
+Proof. unfold grad, gradR. cbn [sub ROps]. rewrite dot_dotR. reflexivity. Qed.
+
+(* the Karush-Kuhn-Tucker certificate of  min 1/2 s^T A s - b^T s  s.t. s >= 0, with slack tau on the multipliers *)
+Definition KKT (A : list (list R)) (b d : list R) (tau : R) : Prop :=
+  length d = length b /\
+  forall i, (i < length b)%nat ->
+    0 <= nth i d 0 /\ (0 < nth i d 0 -> gradR A b d i = 0) /\ (nth i d 0 = 0 -> - tau <= gradR A b d i).
+(* primal feasibility and stationarity on the support (holds at every exit, also at the no_update break) *)
+Definition Stationary (A : list (list R)) (b d : list R) : Prop :=
+  length d = length b /\
+  forall i, (i < length b)%nat -> 0 <= nth i d 0 /\ (0 < nth i d 0 -> gradR A b d i = 0).
+
+Lemma final_stationary n A b tau d P : wf n A b -> 0 <= tau -> Final n A b tau d P -> Stationary A b d.
+Proof.
+  intros [HA [Hr Hb]] Ht [HP [Hd [Hpos [Hzero Hsol]]]]. split; [lia|]. rewrite Hb. intros i Hi.
+  destruct (nth i P false) eqn:E.
+  - specialize (Hpos i Hi E). specialize (Hsol i Hi E). split; [lra|]. intros _. unfold gradR. lra.
+  - specialize (Hzero i Hi E). split; [lra|]. intros Hc. lra.
+Qed.
+Lemma final_kkt n A b tau d P : wf n A b -> 0 <= tau -> Final n A b tau d P ->
+  (forall i, (i < n)%nat -> nth i P false = false -> nth i b 0 - dotR (rowR A i) d <= tau) -> KKT A b d tau.
+Proof.
+  intros Hwf Ht HF Hdual. destruct (final_stationary n A b tau d P Hwf Ht HF) as [Hl Hst].
+  destruct Hwf as [HA [Hr Hb]]. destruct HF as [HP [Hd [Hpos [Hzero Hsol]]]].
+  split; [exact Hl|]. rewrite Hb in *. intros i Hi. destruct (Hst i Hi) as [H1 H2]. repeat split; auto.
+  intros Hz. destruct (nth i P false) eqn:E.
+  - specialize (Hpos i Hi E). lra.
+  - specialize (Hdual i Hi E). unfold gradR. lra.
+Qed.
+
+Lemma nth_repeat_false i n : nth i (repeat false n) false = false.
+Proof. revert i. induction n; intros [|i]; simpl; auto. Qed.
+Lemma sel_all_false {B} : forall P (v : list B), (forall i, nth i P false = false) -> sel P v = [].
+Proof.
+  induction P as [|p P IH]; intros [|x v] H; try reflexivity.
+  rewrite sel_cons. pose proof (H 0%nat) as H0. simpl in H0. subst p. apply IH. intros i. exact (H (S i)).
+Qed.
+Lemma tolerance_nonneg (eps : R) n : 0 <= eps -> 0 <= @tolerance ROps eps n.
+Proof.
+  intros H. unfold tolerance, ofNat. cbn [mul ofZ ROps]. apply Rmult_le_pos; [exact H|]. apply IZR_le. lia.
+Qed.
+
+Lemma fnnls_correct n A b (eps : R) pinit fuel (d : list R) ek Pf :
+  wf n A b -> 0 <= eps -> (forall P0, pinit = Some P0 -> length P0 = n) ->
+  @fnnls ROps fuel A b eps pinit = Ok (d, ek, Pf) ->
+  let tau := @tolerance ROps eps n in
+  Final n A b tau d Pf /\
+  (ek = ExitCond -> forall i, (i < n)%nat -> nth i Pf false = false -> nth i b 0 - dotR (rowR A i) d <= tau).
+Proof.
+  intros Hwf He Hp H tau. pose proof (tolerance_nonneg eps n He) as Htau. fold tau in Htau.
+  unfold fnnls in H. destruct Hwf as [HA HA']. norm. rewrite HA in H. pose proof (conj HA HA') as Hwf. fold tau in H.
+  destruct pinit as [P0|].
+  - specialize (Hp P0 eq_refl).
+    destruct (solve_on _ _ P0) as [s0|] eqn:Es; [|discriminate].
+    pose proof (inv_solve_on n A b P0 s0 Hwf Hp Es) as Hinv0.
+    destruct (prune _ _ _ _ P0 s0) as [[P s]|e] eqn:Epr; [|discriminate].
+    destruct (prune_correct n A b tau Hwf _ _ _ _ _ Hp (iS _ _ _ _ _ _ Hinv0) Epr) as [Hc [HP [Hs Hnf]]].
+    assert (Hinv : Inv n A b P (idx_of P) s) by (destruct Hc as [[-> ->]|Hc]; assumption).
+    refine (outer_correct n A b tau Hwf Htau fuel (mkst P (idx_of P) s s) _ _ _ _ d ek Pf _ _ _ _ H);
+      cbn [sP sPin sS sD]; auto.
+  - refine (outer_correct n A b tau Hwf Htau fuel (mkst (repeat false n) [] (@zeros ROps n) (@zeros ROps n)) _ _ _ _ d ek Pf _ _ _ _ H);
+      cbn [sP sPin sS sD]; auto.
+    + constructor.
+      * apply repeat_length.
+      * apply zeros_R_length.
+      * constructor.
+      * intros i. rewrite nth_repeat_false. split; [intros []|intros [_ Hc]; discriminate].
+      * intros i _ _. apply nth_zeros_any.
+      * intros i [].
+    + unfold need_fix. rewrite sel_all_false by (intros i; apply nth_repeat_false). reflexivity.
+Qed.
+
+Theorem fnnls_kkt_on_normal_exit n A b (eps : R) pinit fuel (d : list R) Pf :
+  wf n A b -> 0 <= eps -> (forall P0, pinit = Some P0 -> length P0 = n) ->
+  @fnnls ROps fuel A b eps pinit = Ok (d, ExitCond, Pf) ->
+  KKT A b d (@tolerance ROps eps n).
+Proof.
+  intros Hwf He Hp H. destruct (fnnls_correct n A b eps pinit fuel d ExitCond Pf Hwf He Hp H) as [HF Hd].
+  apply (final_kkt n A b _ d Pf Hwf (tolerance_nonneg eps n He) HF). apply Hd. reflexivity.
+Qed.
+
+Theorem fnnls_stationary_any_exit n A b (eps : R) pinit fuel (d : list R) ek Pf :
+  wf n A b -> 0 <= eps -> (forall P0, pinit = Some P0 -> length P0 = n) ->
+  @fnnls ROps fuel A b eps pinit = Ok (d, ek, Pf) ->
+  Stationary A b d.
+Proof.
+  intros Hwf He Hp H. destruct (fnnls_correct n A b eps pinit fuel d ek Pf Hwf He Hp H) as [HF _].
+  exact (final_stationary n A b _ d Pf Hwf (tolerance_nonneg eps n He) HF).
+Qed.
+
+(* the executable certificate [kkt_ok] (the one the correspondence run evaluates on the implementation's output) accepts *)
+Lemma KKT_kkt_ok A b d (tau : R) : 0 <= tau -> KKT A b d tau -> @kkt_ok ROps A b d tau = true.
+Proof.
+  intros Ht [Hl H]. unfold kkt_ok. norm. rewrite Hl, Nat.eqb_refl. cbn [andb]. apply forallb_forall.
+  intros i Hi. apply in_seq in Hi. destruct (H i ltac:(lia)) as [H1 [H2 H3]].
+  rewrite nthT_R, grad_gradR. cbn [leb ltb opp ROps]. unfold zero, absT. cbn [ofZ ltb opp ROps].
+  apply andb_true_iff. split; [apply Rleb_true; exact H1|].
+  destruct (Rltb 0 (nth i d 0)) eqn:E; rbool.
+  - rewrite (H2 E). unfold zero. cbn [ofZ ROps]. destruct (Rltb 0 0) eqn:E2; rbool; apply Rleb_true; lra.
+  - apply Rleb_true. apply H3. lra.
+Qed.
